@@ -125,6 +125,20 @@ class World:
         add(name, pp=True)
       else:
         add(name)
+    if group == mg.SEQ and C >= 2:
+      # twins that differ ONLY in logits_mask (None / all-zero / one class excluded), as the packaged Stack Overflow model
+      # declares them: every configuration must keep its own result although all are evaluated in one process on
+      # same-shaped inputs (metrics are static arguments of jitted code: equality/hash must distinguish them)
+      excl = [0.0] * C
+      excl[int(rng.randint(C))] = float('-inf')
+      for cls_name in ('SequenceTokenAccuracy', 'SequenceTokenTopKAccuracy'):
+        for tag, lm in (('none', None), ('zeros', tuple([0.0] * C)), ('excl', tuple(excl))):
+          kw = dict(target_key=self.tkey, pred_key=self.pkey, masked_target_values=(0,), logits_mask=lm, per_position=False)
+          if cls_name == 'SequenceTokenTopKAccuracy':
+            kw['k'] = 1
+          a = {'class': cls_name, **{k_: (list(v_) if isinstance(v_, tuple) else v_) for k_, v_ in kw.items()}}
+          bundle[f'{cls_name}#twin-{tag}'] = (getattr(M, cls_name)(**kw), a)
+      ctx.count('logits-mask-twins')
     self.bundle = bundle
     self.metrics = collections.OrderedDict((k, v[0]) for k, v in bundle.items())
     self.args = {k: v[1] for k, v in bundle.items()}
